@@ -655,8 +655,9 @@ def _payload_parts(node):
     mdl = None
     if isinstance(md, dict) and "dict" in md:
         mdl = sorted(((tok(k), tok(v)) for k, v in md["dict"]), key=lambda kv: IN[0](kv[0]))
+    ndv = {"IntegerData": -2147483648, "ReferencedData": -2147483648, "BooleanData": 0}.get(cls)
     return dict(cls=tok(cls), knd=knd, geo=geo, asc=asc, attrs=attrs, verts=verts, cells=cells, ncell=ncell, vals=vals, meta=mdl,
-                nocopy=cls == "CustomGroup")
+                nocopy=cls == "CustomGroup", ndv=None if ndv is None else _vals_list([ndv])[0])
 
 
 def _vals_term(vals):
@@ -668,9 +669,10 @@ def _cells_term(cells):
 
 
 def _payload_term(pp, meta_loc):
-    return "(mkp %s %s %s %s %s %s %s %s %s %s %s)" % (
+    return "(mkp %s %s %s %s %s %s %s %s %s %s %s %s)" % (
         zt(pp["cls"]), pp["knd"], pp["geo"], pp["asc"], _zz(pp["attrs"]), clist(zt(v) for v in pp["verts"]), _cells_term(pp["cells"]),
-        cnat(pp["ncell"]), _vals_term(pp["vals"]), "None" if meta_loc is None else "(Some %d%%N)" % meta_loc, cbool(pp.get("nocopy", False)))
+        cnat(pp["ncell"]), _vals_term(pp["vals"]), "None" if meta_loc is None else "(Some %d%%N)" % meta_loc, cbool(pp.get("nocopy", False)),
+        "None" if pp.get("ndv") is None else "(Some %s)" % zv(pp["ndv"]))
 
 
 def _ord(u):
@@ -867,10 +869,7 @@ def _cmp_nodes(src, cp, mapping, case, path, fails, masked, top):
     sa, ca = src["attrs"], cp["attrs"]
     o = case["opts"]
     for k in sorted(set(sa) | set(ca)):
-        if k not in sa or k not in ca:
-            fails.append({"key": "copy-attribute-missing:" + k, "what": f"{path}: attribute {k} present on one side only"})
-            continue
-        sv, cv = _strip_uids(sa[k], mapping), ca[k]
+        sv, cv = _strip_uids(sa.get(k), mapping), ca.get(k)  # an attribute that is None is not listed
         if top and k == "name" and o["name"] is not None:
             sv = o["name"]
         if top and k == "metadata" and o["omit_meta"]:
@@ -1094,7 +1093,7 @@ def oracle(case, obs):
             bad = [x for x in obs["edit_log"] if str(x).startswith("raised")]
             fails.append({"key": "copy-edit-refused", "what": f"a setter of the copy raised: {bad[:3]}"})
         renamed = any(e["op"] == "attr" and e["attr"] == "name" and e["path"] == [] for e in case.get("edits", []))
-        if obs.get("copy_reopened_cls") != cp["cls"] and not (cp["cls"] == "CommentsData" and renamed):
+        if obs.get("copy_reopened_cls") != cp["cls"] and not (cp["cls"] in ("CommentsData", "VisualParameters") and renamed):
             fails.append({"key": "copy-not-stored", "what": f"after re-open the copy resolves to {obs.get('copy_reopened_cls')}, live class {cp['cls']}"})
     # the source file
     if obs.get("digest_before") != obs.get("digest_after"):
